@@ -93,16 +93,17 @@ Lemma ensure_keeps fs k v c k' x : lookk fs k' = Some x -> lookk (ensure_wfactor
 Proof. intros H. now rewrite lookk_ensure, H. Qed.
 
 (** ** ensure_exports *)
-Lemma ensure_exports_keeps cs : forall fs fs' k x,
-  ensure_exports fs cs = Ok fs' -> lookk fs k = Some x -> lookk fs' k = Some x.
+Lemma ensure_exports_keeps wf cs : forall fs fs' k x,
+  ensure_exports wf fs cs = Ok fs' -> lookk fs k = Some x -> lookk fs' k = Some x.
 Proof.
   induction cs as [|[c s] cs IH]; cbn [ensure_exports]; intros fs fs' k x H L.
   - now injection H as <-.
   - set (fs1 := match lookk fs (c, s, SUMINISTRO, STEP_A) with Some v => _ | None => fs end) in *.
     assert (L1 : lookk fs1 k = Some x).
     { unfold fs1. destruct (lookk fs (c, s, SUMINISTRO, STEP_A)); [|exact L]. now apply ensure_keeps, ensure_keeps. }
-    destruct (lookk fs1 (grid_key c)) as [g|]; [|discriminate].
-    eapply IH; [exact H|]. now apply ensure_keeps, ensure_keeps.
+    destruct (lookk fs1 (grid_key c)) as [g|].
+    + eapply IH; [exact H|]. now apply ensure_keeps, ensure_keeps.
+    + destruct (existsb (Carrier_beq c) wf); [discriminate|]. eapply IH; eassumption.
 Qed.
 
 Definition forced_keys : list fkey := [K_EAMB_INSITU; K_EAMB_RED; K_TERMO_INSITU; K_TERMO_RED; K_EL_INSITU].
@@ -128,7 +129,7 @@ Lemma normalize_unfold fs d1 d2 :
   normalize_factors fs d1 d2 =
   let fs1 := forced_updates fs in
   if negb (forallb (fun c => existsb (kmatch (grid_key c)) fs1) (carriers_of fs)) then Err MissingFactor else
-  do fs2 <- ensure_exports fs1 exp_carriers;
+  do fs2 <- ensure_exports (carriers_of fs) fs1 exp_carriers;
   Ok (ensure_wfactor (ensure_wfactor fs2 K_RED1 d1 []) K_RED2 d2 []).
 Proof. reflexivity. Qed.
 
@@ -138,7 +139,7 @@ Lemma normalize_respects fs d1 d2 fs' k v :
 Proof.
   rewrite normalize_unfold. cbv zeta. intros H N L.
   destruct (negb _); [discriminate|].
-  destruct (ensure_exports (forced_updates fs) exp_carriers) as [fs2|] eqn:E; cbn [bind] in H; [|discriminate].
+  destruct (ensure_exports (carriers_of fs) (forced_updates fs) exp_carriers) as [fs2|] eqn:E; cbn [bind] in H; [|discriminate].
   injection H as <-. apply ensure_keeps, ensure_keeps. eapply ensure_exports_keeps; [exact E|].
   now rewrite forced_updates_other.
 Qed.
@@ -149,7 +150,7 @@ Lemma normalize_keeps_defined fs d1 d2 fs' k : normalize_factors fs d1 d2 = Ok f
 Proof.
   rewrite normalize_unfold. cbv zeta. intros H L.
   destruct (negb _); [discriminate|].
-  destruct (ensure_exports (forced_updates fs) exp_carriers) as [fs2|] eqn:E; cbn [bind] in H; [|discriminate].
+  destruct (ensure_exports (carriers_of fs) (forced_updates fs) exp_carriers) as [fs2|] eqn:E; cbn [bind] in H; [|discriminate].
   injection H as <-.
   assert (L1 : exists x, lookk (forced_updates fs) k = Some x).
   { unfold forced_updates. destruct (lookk fs k) as [x|] eqn:Lx; [|congruence].
@@ -172,7 +173,7 @@ Lemma normalize_forced fs d1 d2 fs' k : normalize_factors fs d1 d2 = Ok fs' ->
 Proof.
   rewrite normalize_unfold. cbv zeta. intros H Hk.
   destruct (negb _); [discriminate|].
-  destruct (ensure_exports (forced_updates fs) exp_carriers) as [fs2|] eqn:E; cbn [bind] in H; [|discriminate].
+  destruct (ensure_exports (carriers_of fs) (forced_updates fs) exp_carriers) as [fs2|] eqn:E; cbn [bind] in H; [|discriminate].
   injection H as <-. apply ensure_keeps, ensure_keeps. eapply ensure_exports_keeps; [exact E|].
   now apply forced_updates_forced.
 Qed.
@@ -189,21 +190,3 @@ Proof.
   now rewrite F.
 Qed.
 
-(** a set without grid electricity is rejected as well *)
-Lemma ensure_exports_needs_el fs : lookk fs (grid_key ELECTRICIDAD) = None -> ensure_exports fs exp_carriers = Err MissingFactor.
-Proof.
-  intros L. cbn [ensure_exports exp_carriers].
-  set (fs1 := match lookk fs (ELECTRICIDAD, INSITU, SUMINISTRO, STEP_A) with Some v => _ | None => fs end).
-  assert (L1 : lookk fs1 (grid_key ELECTRICIDAD) = None).
-  { unfold fs1. destruct (lookk fs (ELECTRICIDAD, INSITU, SUMINISTRO, STEP_A)); [|exact L].
-    rewrite !lookk_ensure, L. reflexivity. }
-  now rewrite L1.
-Qed.
-
-Lemma normalize_needs_el fs d1 d2 : lookk fs (grid_key ELECTRICIDAD) = None ->
-  normalize_factors fs d1 d2 = Err MissingFactor.
-Proof.
-  intros L. rewrite normalize_unfold. cbv zeta. destruct (negb _); [reflexivity|].
-  rewrite ensure_exports_needs_el; [reflexivity|].
-  rewrite forced_updates_other; [exact L|]. cbn. intuition discriminate.
-Qed.
